@@ -28,7 +28,7 @@ def route(case):
 #       handshake: `known:` finding stale-heartbeat-built-before-peer-loss, no patch)
 # def_sl = HEAD.  Fixed defects have no variant: a regression to any of them is a VIOLATION.
 VARIANTS = ["repaired", "def_sl"]
-MODEL_NEEDS_IMPL = False
+MODEL_NEEDS_IMPL = True   # only for the overflow policy outside the no-overflow domain (driver header)
 
 RULE = ("case = configuration of both nodes (node id as a Go string, priority, preempt, decrement, #tracked interfaces) + "
         "history over the pair: start, send heartbeat, deliver/drop any in-flight heartbeat (requests are answered with a "
